@@ -3,6 +3,7 @@
 Files a confirmed seeded change under /verif/seeded/<name>/ (patch.diff, demo files, meta.json)."""
 import json, os, shutil, sys
 name, src, prop, detected, note = sys.argv[1:6]
+mirror = len(sys.argv) > 6 and sys.argv[6] == "mirror"
 dst = os.path.join("/verif/seeded", name)
 os.makedirs(dst, exist_ok=True)
 for f in os.listdir(src):
@@ -16,7 +17,7 @@ m["confirmed_by_main_session"] = {
     "ran": [
         "scratch worktree /tmp/sv at the base commit: git apply patch.diff; cargo nextest run --workspace --no-fail-fast --test-threads 8 --offline -> 1259 passed",
         "demo with the change applied -> fails; demo on the unmodified tree -> passes",
-        "git -C /repo apply patch.diff; ./check <id> quick; git -C /repo checkout -- .",
+        ("checks run from a mirror of /verif whose path dependencies point at the scratch worktree with the change applied (same engines, /repo untouched): ./check <id> quick" if mirror else "git -C /repo apply patch.diff; ./check <id> quick; git -C /repo checkout -- ."),
     ],
     "detected_by": detected,
     "note": note,
